@@ -256,7 +256,7 @@ func runC16(x *Ctx) {
 				}
 				t.Yield(sim.SiteStart, sim.KNote, uint64(r.ID), f)
 				data := append([]byte{}, r.body...)
-				b := &sim.SimBody{T: t, Data: data, Chunks: r.BChunks}
+				b := &sim.SimBody{T: t, Data: data, Chunks: scaleChunks(r.BChunks, len(data), 300)}
 				hdr := map[string]string{}
 				switch r.CTForm {
 				case 0:
